@@ -541,6 +541,12 @@ def classify(rec, acc):
     return "%s:%s:%s" % (kind, sig, how)
 
 
+def private_scratch(ctx):
+    import tempfile
+    os.makedirs(core.BUILD, exist_ok=True)
+    return tempfile.mkdtemp(prefix="%s_scratch_" % ctx.pid, dir=core.BUILD)
+
+
 def check_histories(ctx, items, what):
     """items: list of (scenario, commands, style, protocol).  Replays every history on the real code,
     validates the records with Trace_Cache.tla, accounts them in ctx and reports one violation per
@@ -554,21 +560,26 @@ def check_histories(ctx, items, what):
     shards = [[] for _ in range(nsh)]
     for gi, it in enumerate(items):
         shards[gi % nsh].append((gi,) + tuple(it))
-    jobs = [(ctx.workdir, "%s%d" % (what, k), sh, ctx.repo) for k, sh in enumerate(shards)]
+    # a private scratch directory (ctx.workdir is wiped when another run of the same check starts)
+    scratch = private_scratch(ctx)
+    jobs = [(scratch, "%s%d" % (what, k), sh, ctx.repo) for k, sh in enumerate(shards)]
     global _TLC_SEM
-    if nsh == 1:
-        _TLC_SEM = None
-        outs = [_shard_job(jobs[0])]
-    else:
-        mp = multiprocessing.get_context("fork")
-        _TLC_SEM = mp.Semaphore(MAX_JVMS)     # inherited by the forked workers
-        pool = mp.Pool(nsh)
-        try:
-            outs = pool.map(_shard_job, jobs)
-        finally:
-            pool.close()
-            pool.join()
+    try:
+        if nsh == 1:
             _TLC_SEM = None
+            outs = [_shard_job(jobs[0])]
+        else:
+            mp = multiprocessing.get_context("fork")
+            _TLC_SEM = mp.Semaphore(MAX_JVMS)     # inherited by the forked workers
+            pool = mp.Pool(nsh)
+            try:
+                outs = pool.map(_shard_job, jobs)
+            finally:
+                pool.close()
+                pool.join()
+                _TLC_SEM = None
+    finally:
+        shutil.rmtree(scratch, ignore_errors=True)
     nacc = 0
     worst = {}
     for o in outs:
